@@ -63,6 +63,16 @@ def c20Fact (name : String) : Option String :=
   | "sqlReadonly" => some (c20Pairs Gen.HostApi.sqlReadonlyFirst ++ " | " ++ c20Pairs Gen.HostApi.sqlReadonlyPragmas)
   | "sqlGateOK" => some s!"{SqlGate.firstOK Gen.HostApi.sqlReadonlyFirst} {SqlGate.pragmasOK Gen.HostApi.sqlReadonlyPragmas}"
   | "cPrepareGates" => some (c20Pairs Gen.HostApi.cPrepareGates)
+  | "slotStepTable" =>
+    -- the translated index update on every (maxContext, index) with 3 ≤ maxContext ≤ 9, 1 ≤ index < maxContext
+    some (" ".intercalate ((List.range 7).flatMap fun dm =>
+      let m : Int := Int.ofNat (dm + 3)
+      (List.range (dm + 2)).map fun di =>
+        let i : Int := Int.ofNat (di + 1)
+        s!"{m}:{i}>{Gen.HostApi.slotStep m i}"))
+  | "slotFacts" => some (s!"init={Gen.HostApi.slotInit} translated={Gen.HostApi.slotStepTranslated} " ++
+      c20Triples Gen.HostApi.ctxSlotWrites ++ " | " ++ c20Pairs Gen.HostApi.ctxServiceWrites ++ " | " ++
+      c20Pairs Gen.HostApi.lastQueryIndexWrites ++ " | " ++ c20Pairs Gen.HostApi.slotCallers)
   | "refuseOK" => some (toString Gen.HostApi.program.refuseOK)
   | "viewBracket" =>
     some (match Gen.HostApi.program.fns.find? (·.name == "executor.call") with
